@@ -1,12 +1,15 @@
 (** C16 — property theorems (statements and [exact]s only).
-    PARTIAL: "finishes in bounded time" is split into (proved) once the registration channel is
-    closed a poll of either router returns Pending only because a sink answered Pending in that
-    step -- so with subscribers / requestors that accept data every poll returns Ready -- and
-    (checked on implementation traces, not proved) that a poll does return, i.e. performs bounded
-    work (obs_c09_bounded_ok, spin guard); that the future is polled again after close is
-    c09_*_never_parks_unarmed plus the wake-bit correspondence. *)
+    "Finishes in bounded time": proved is that (1) once the registration channel is closed a poll
+    of either router returns Pending only because a sink answered Pending in that step, (2) a
+    poll after close in which no sink answers Pending therefore completes the future, and does so
+    after a number of peer calls bounded by the data handed over in it (the C09 potential
+    argument), and (3) between two peer calls the loop makes finitely many moves.  That the
+    future is polled again after close is c09_*_never_parks_unarmed plus the wake-bit
+    correspondence.  NOT proved: that the mock/peer answers every call (the model accepts traces,
+    it does not generate them), i.e. wall-clock time; the shut engine checks that on the server. *)
 Require Import Selium.Base Selium.PubSub Selium.PubSubSpec Selium.P_PubSub Selium.P_PubSubPark.
 Require Import Selium.ReqRep Selium.ReqRepSpec Selium.P_ReqRep Selium.P_ReqRepOrder.
+Require Import Selium.P_PubSubWork Selium.P_ReqRepWork.
 Open Scope N_scope.
 
 (** whenever the router's future completes (only possible after the registration channel was
@@ -30,6 +33,25 @@ Theorem c16_rr_closed_pending_only_from_sinks : forall tr s e s',
   rr_pending_answer e = true.
 Proof. exact rr_closed_pending_only_from_sinks. Qed.
 Print Assumptions c16_rr_closed_pending_only_from_sinks.
+
+(** after close, from every reachable state between two polls: a poll in which no subscriber
+    answers Pending ends by completing the future ([EEnd true]), after at most
+    [(data + queued + 1) * cap] peer calls *)
+Theorem c16_ps_poll_after_close_completes : forall tr0 s0 seg r s1,
+  run init tr0 = Some s0 -> closed s0 = true -> ctl s0 = PIdle ->
+  run s0 (EBegin :: seg ++ [EEnd r]) = Some s1 ->
+  forallb peer_call seg = true -> forallb (fun e => negb (sink_pending e)) seg = true ->
+  r = true /\ (List.length seg <= (data_calls seg + nQ s0 + 1) * cap s0)%nat.
+Proof. exact ps_poll_after_close_completes. Qed.
+Print Assumptions c16_ps_poll_after_close_completes.
+
+Theorem c16_rr_poll_after_close_completes : forall tr0 s0 seg r s1,
+  rrun rinit tr0 = Some s0 -> rclosed s0 = true -> rctl s0 = RIdle ->
+  rrun s0 (VBegin :: seg ++ [VEnd r]) = Some s1 ->
+  forallb rpeer_call seg = true -> forallb (fun e => negb (rr_pending_answer e)) seg = true ->
+  r = true /\ (List.length seg <= (rdata_calls seg + rQ s0 + 1) * rcap s0)%nat.
+Proof. exact rr_poll_after_close_completes. Qed.
+Print Assumptions c16_rr_poll_after_close_completes.
 
 Example c16_example :
   exists s, run init
